@@ -201,6 +201,14 @@ package transaction
 // TransactionManager interface that can dispatch to it are included).
 //@ rule[C16] callers (*Manager).BeginTransaction : pkg/engine::(*EngineFacade).BeginTransaction
 
+// ---- C17: commit and rollback take effect at most once also when they race (client call against the server-side
+// clean-up): the decision who finishes the transaction is one atomic compare-and-swap of the active flag, and the
+// lock-held flags are released the same way; nothing else writes these flags after BeginTransaction has set them
+// on the transaction it creates (before handing it out).
+//@ rule[C17] writers (*TransactionImpl).active : (*Manager).BeginTransaction, (*TransactionImpl).Commit via CompareAndSwap, (*TransactionImpl).Rollback via CompareAndSwap
+//@ rule[C17] writers (*TransactionImpl).hasReadLock : (*Manager).BeginTransaction, (*TransactionImpl).releaseReadLock via CompareAndSwap
+//@ rule[C17] writers (*TransactionImpl).hasWriteLock : (*Manager).BeginTransaction, (*TransactionImpl).releaseWriteLock via CompareAndSwap
+
 // ---- C07: sharing discipline
 //@ guarded (*RegistryImpl).transactions by mu
 //@ guarded (*RegistryImpl).connectionTxs by mu
